@@ -24,6 +24,7 @@ import (
 	"net"
 	"net/http"
 	"net/http/httptest"
+	"os"
 	"reflect"
 	"sort"
 	"strings"
@@ -302,6 +303,46 @@ func vUseCase(out *vOut, consumer, key, sec, got string) {
 	}
 }
 
+func vEncPairs(l [][2]string) string {
+	it := make([]string, len(l))
+	for i, p := range l {
+		it[i] = "(" + vEnc(p[0]) + ", " + vEnc(p[1]) + ")"
+	}
+	return vList(it)
+}
+
+type vKVs struct {
+	k  string
+	vs []string
+}
+
+func vEncMulti(l []vKVs) string {
+	it := make([]string, len(l))
+	for i, p := range l {
+		vs := make([]string, len(p.vs))
+		for j, v := range p.vs {
+			vs[j] = vEnc(v)
+		}
+		it[i] = "(" + vEnc(p.k) + ", " + vList(vs) + ")"
+	}
+	return vList(it)
+}
+
+// vHeaderOracle: every configured (key, secret) must have arrived as exactly that secret (the direct oracle of
+// the "use" clause on the header maps; independent of the Coq model)
+func vHeaderOracle(out *vOut, what, term string, cfg [][2]string, skip func(k string) bool, got func(k string) []string) {
+	for _, kv := range cfg {
+		if skip != nil && skip(kv[0]) {
+			continue
+		}
+		g := got(kv[0])
+		if len(g) != 1 || g[0] != kv[1] {
+			out.Oracle("use-does-not-yield-secret", term, fmt.Sprintf("consumer=%s key=%q: configured %q, the consumer sent %q; cause=unexplained", what, kv[0], kv[1], g))
+			return
+		}
+	}
+}
+
 func vHeaderSafe(s string) bool {
 	if s == "" || s != strings.TrimSpace(s) {
 		return false
@@ -336,6 +377,111 @@ func vUseHTTP(t *testing.T, out *vOut, secrets []string) {
 	}))
 	defer srv.Close()
 	keys := []string{"Authorization", "X-Api-Key", "X-Signature-Bin", "x-tenant-bin"}
+	// ---- the whole map at once: distinct secrets per key, key forms of every case, a header the caller had set
+	var safe, hostSafe []string
+	for _, sec := range secrets {
+		if vHeaderSafe(sec) && len(sec) < 200 {
+			safe = append(safe, sec)
+			if vHostSafe(sec) {
+				hostSafe = append(hostSafe, sec)
+			}
+		}
+	}
+	mkeys := []string{"Authorization", "authorization-2", "X-Api-Key", "X-Signature-Bin", "x-tenant-bin", "X-UPPER-BIN", "x_under_score", "X-Mixed-cASE-bin", "x-bin", "bin"}
+	for r := 0; r < len(safe); r++ {
+		var cfg [][2]string
+		for j, k := range mkeys {
+			cfg = append(cfg, [2]string{k, safe[(r+j)%len(safe)]})
+		}
+		hostCfg := ""
+		switch r % 3 {
+		case 0:
+			hostCfg = hostSafe[r%len(hostSafe)]
+			cfg = append(cfg, [2]string{"Host", hostCfg})
+		case 1:
+			cfg = append(cfg, [2]string{"Host", ""}) // present but empty: the request's own host stays
+		}
+		hm := map[string]configopaque.String{}
+		for _, kv := range cfg {
+			hm[kv[0]] = configopaque.String(kv[1])
+		}
+		cc := confighttp.NewDefaultClientConfig()
+		cc.Endpoint = srv.URL
+		cc.Headers = hm
+		cl, err := cc.ToClient(ctx, componenttest.NewNopHost(), componenttest.NewNopTelemetrySettings())
+		if err != nil {
+			t.Fatalf("ToClient: %v", err)
+		}
+		req, _ := http.NewRequestWithContext(ctx, http.MethodGet, srv.URL, nil)
+		pre := [][2]string{{"X-Api-Key", "set-by-the-caller"}, {"X-Untouched", "keep-me"}}
+		for _, p := range pre {
+			req.Header.Set(p[0], p[1])
+		}
+		reqHost := req.URL.Host
+		if resp, err := cl.Do(req); err != nil {
+			t.Fatalf("http client: %v", err)
+		} else {
+			resp.Body.Close()
+		}
+		mu.Lock()
+		var obs []vKVs
+		for _, k := range append(append([]string{}, mkeys...), "X-Untouched", "x-absent") {
+			obs = append(obs, vKVs{k, gotHdr.Values(k)})
+		}
+		term := "CHttpClient " + vEncPairs(cfg) + " " + vEncPairs(pre) + " " + vEnc(reqHost) + " " + vEnc(gotHost) + " " + vEncMulti(obs)
+		out.Case(true, term)
+		out.Stat("use_map_http_client", 1)
+		hdr := gotHdr
+		vHeaderOracle(out, "headerRoundTripper.RoundTrip", term, cfg, func(k string) bool { return k == "Host" }, func(k string) []string { return hdr.Values(k) })
+		wantHost := reqHost
+		if hostCfg != "" {
+			wantHost = hostCfg
+		}
+		if gotHost != wantHost {
+			out.Oracle("use-does-not-yield-secret", term, fmt.Sprintf("consumer=headerRoundTripper.RoundTrip key=\"Host\": configured %q, the server saw Host %q; cause=unexplained", hostCfg, gotHost))
+		}
+		mu.Unlock()
+		// -- server response headers
+		sc := confighttp.NewDefaultServerConfig()
+		sc.Endpoint = "127.0.0.1:0"
+		sc.TLSSetting = nil
+		sc.ResponseHeaders = map[string]configopaque.String{}
+		var scfg [][2]string
+		for _, kv := range cfg {
+			if kv[0] != "Host" {
+				scfg = append(scfg, kv)
+				sc.ResponseHeaders[kv[0]] = configopaque.String(kv[1])
+			}
+		}
+		lis, err := sc.ToListener(ctx)
+		if err != nil {
+			t.Fatalf("ToListener: %v", err)
+		}
+		hs, err := sc.ToServer(ctx, componenttest.NewNopHost(), componenttest.NewNopTelemetrySettings(), http.HandlerFunc(func(w http.ResponseWriter, _ *http.Request) { w.WriteHeader(204) }))
+		if err != nil {
+			t.Fatalf("ToServer: %v", err)
+		}
+		go func() { _ = hs.Serve(lis) }()
+		rctx, cancel := context.WithTimeout(ctx, 30*time.Second)
+		rreq, _ := http.NewRequestWithContext(rctx, http.MethodGet, "http://"+lis.Addr().String()+"/", nil)
+		resp, err := http.DefaultClient.Do(rreq)
+		if err != nil {
+			cancel()
+			t.Fatalf("http server: %v", err)
+		}
+		var sobs []vKVs
+		for _, k := range append(append([]string{}, mkeys...), "x-absent") {
+			sobs = append(sobs, vKVs{k, resp.Header.Values(k)})
+		}
+		sterm := "CHttpServer " + vEncPairs(scfg) + " " + vEncMulti(sobs)
+		out.Case(true, sterm)
+		out.Stat("use_map_http_server", 1)
+		rh := resp.Header
+		vHeaderOracle(out, "responseHeadersHandler", sterm, scfg, nil, func(k string) []string { return rh.Values(k) })
+		resp.Body.Close()
+		cancel()
+		_ = hs.Close()
+	}
 	for _, sec := range secrets {
 		if !vHeaderSafe(sec) {
 			continue
@@ -463,8 +609,58 @@ func vUseGRPC(t *testing.T, out *vOut, secrets []string) {
 	} else {
 		t.Fatalf("NewStream: %v", err)
 	}
+	// ---- the whole map at once, with outgoing metadata the caller had already set
+	existing := []vKVs{{"x-pre-set", []string{"set-by-the-caller"}}, {"x-other-bin", []string{"o\x00ther"}}}
+	var cfg [][2]string
+	for _, h := range hks {
+		cfg = append(cfg, [2]string{h.key, h.sec})
+	}
+	cfg = append(cfg, [2]string{"X-Pre-Set", "hunter2-s3cr3t-A"}) // the caller's value must win ("IfAbsent")
+	cc2 := configgrpc.NewDefaultClientConfig()
+	cc2.Endpoint = lis.Addr().String()
+	cc2.TLSSetting = configtls.ClientConfig{Insecure: true}
+	cc2.Headers = map[string]configopaque.String{}
+	for _, kv := range cfg {
+		cc2.Headers[kv[0]] = configopaque.String(kv[1])
+	}
+	conn2, err := cc2.ToClientConn(ctx, componenttest.NewNopHost(), componenttest.NewNopTelemetrySettings())
+	if err != nil {
+		t.Fatalf("ToClientConn: %v", err)
+	}
+	defer conn2.Close()
+	octx := ctx
+	for _, e := range existing {
+		for _, v := range e.vs {
+			octx = metadata.AppendToOutgoingContext(octx, e.k, v)
+		}
+	}
+	_ = conn2.Invoke(octx, "/verif.M/Unary", &emptypb.Empty{}, &emptypb.Empty{})
+	if st, err := conn2.NewStream(octx, &grpc.StreamDesc{StreamName: "Stream", ClientStreams: true, ServerStreams: true}, "/verif.M/Stream"); err == nil {
+		_ = st.CloseSend()
+		_ = st.RecvMsg(&emptypb.Empty{})
+	} else {
+		t.Fatalf("NewStream: %v", err)
+	}
 	mu.Lock()
 	defer mu.Unlock()
+	for _, method := range []string{"/verif.M/Unary", "/verif.M/Stream"} {
+		md, ok := got[method]
+		if !ok {
+			t.Fatalf("the server never saw %s", method)
+		}
+		var obs []vKVs
+		for _, kv := range cfg {
+			obs = append(obs, vKVs{kv[0], md.Get(kv[0])})
+		}
+		obs = append(obs, vKVs{"x-other-bin", md.Get("x-other-bin")}, vKVs{"x-absent", md.Get("x-absent")})
+		term := "CGrpc " + vEncPairs(cfg) + " " + vEncMulti(existing) + " " + vEncMulti(obs)
+		out.Case(true, term)
+		out.Stat("use_map_grpc", 1)
+		vHeaderOracle(out, "addHeadersIfAbsent "+method, term, cfg, func(k string) bool { return k == "X-Pre-Set" }, func(k string) []string { return md.Get(k) })
+		if g := md.Get("x-pre-set"); len(g) != 1 || g[0] != "set-by-the-caller" {
+			out.Oracle("use-does-not-yield-secret", term, fmt.Sprintf("consumer=addHeadersIfAbsent %s key=\"x-pre-set\": the caller's value was not kept: %q; cause=unexplained", method, g))
+		}
+	}
 	for _, c := range []struct{ method, cons string }{{"/verif.S/Unary", "UseGrpcUnary"}, {"/verif.S/Stream", "UseGrpcStream"}} {
 		md, ok := got[c.method]
 		if !ok {
@@ -515,6 +711,88 @@ func vUseTLS(t *testing.T, out *vOut) {
 	}
 }
 
+// vTLSDecision: every combination of {absent, key pair A, key pair B} in CertFile / KeyFile and
+// {absent, A, B, one garbage byte} in CertPem / KeyPem
+func vTLSDecision(t *testing.T, out *vOut) {
+	dir := t.TempDir()
+	type pair struct {
+		cert, key, certFile, keyFile string
+		der                          []byte
+	}
+	var ps [3]pair
+	for i := 1; i <= 2; i++ {
+		key, err := ecdsa.GenerateKey(elliptic.P256(), rand.Reader)
+		if err != nil {
+			t.Fatal(err)
+		}
+		tmpl := &x509.Certificate{SerialNumber: big.NewInt(int64(100 + i)), Subject: pkix.Name{CommonName: fmt.Sprintf("verif-%d", i)}, NotBefore: time.Now().Add(-time.Hour), NotAfter: time.Now().Add(time.Hour)}
+		der, err := x509.CreateCertificate(rand.Reader, tmpl, tmpl, &key.PublicKey, key)
+		if err != nil {
+			t.Fatal(err)
+		}
+		kder, _ := x509.MarshalECPrivateKey(key)
+		p := pair{der: der}
+		p.cert = string(pem.EncodeToMemory(&pem.Block{Type: "CERTIFICATE", Bytes: der}))
+		p.key = string(pem.EncodeToMemory(&pem.Block{Type: "EC PRIVATE KEY", Bytes: kder}))
+		p.certFile = fmt.Sprintf("%s/cert%d.pem", dir, i)
+		p.keyFile = fmt.Sprintf("%s/key%d.pem", dir, i)
+		if err := os.WriteFile(p.certFile, []byte(p.cert), 0o600); err != nil {
+			t.Fatal(err)
+		}
+		if err := os.WriteFile(p.keyFile, []byte(p.key), 0o600); err != nil {
+			t.Fatal(err)
+		}
+		ps[i] = p
+	}
+	pemOf := func(slot int, key bool) string {
+		if slot == 3 {
+			return "x" // one byte that is no key material: present, but cannot be loaded
+		}
+		if key {
+			return ps[slot].key
+		}
+		return ps[slot].cert
+	}
+	for n := 0; n < 144; n++ {
+		cf, cp, kf, kp := n%3, (n/3)%4, (n/12)%3, (n/36)%4
+		cfg := configtls.ClientConfig{Config: configtls.Config{CertFile: ps[cf].certFile, CertPem: configopaque.String(pemOf(cp, false)), KeyFile: ps[kf].keyFile, KeyPem: configopaque.String(pemOf(kp, true))}}
+		obs, detail := -1, ""
+		tc, err := cfg.LoadTLSConfig(context.Background())
+		var crt *tls.Certificate
+		if err == nil && tc.GetClientCertificate != nil {
+			crt, err = tc.GetClientCertificate(&tls.CertificateRequestInfo{})
+		}
+		switch {
+		case err != nil && strings.Contains(err.Error(), "provide both certificate and key, or neither"):
+			obs = 1
+		case err != nil && strings.Contains(err.Error(), "either a certificate or the PEM"):
+			obs = 2
+		case err != nil && strings.Contains(err.Error(), "either a key or the PEM"):
+			obs = 3
+		case err != nil && strings.Contains(err.Error(), "failed to load TLS cert and key PEMs"):
+			obs = 4
+		case err != nil:
+			obs, detail = 99, err.Error()
+		case crt == nil || len(crt.Certificate) == 0:
+			obs = 0
+		case bytes.Equal(crt.Certificate[0], ps[1].der):
+			obs = 11
+		case bytes.Equal(crt.Certificate[0], ps[2].der):
+			obs = 12
+		default:
+			obs, detail = 98, "a certificate that is neither A nor B"
+		}
+		term := fmt.Sprintf("CTls %d %d %d %d %d", cf, cp, kf, kp, obs)
+		out.Case(true, term)
+		out.Stat("tls_decision_cases", 1)
+		out.Stat(fmt.Sprintf("tls_outcome_%d", obs), 1)
+		// direct oracle: PEM-only configurations load exactly the configured pair
+		if cf == 0 && kf == 0 && cp != 0 && cp != 3 && cp == kp && obs != 10+cp {
+			out.Oracle("use-does-not-yield-secret", term, fmt.Sprintf("consumer=configtls.loadCertificate: cert_pem and key_pem hold key pair %d, outcome %d %s; cause=unexplained", cp, obs, detail))
+		}
+	}
+}
+
 func TestVerifC14E2E(t *testing.T) {
 	out := vOpen()
 	defer out.Close()
@@ -533,6 +811,7 @@ func TestVerifC14E2E(t *testing.T) {
 	vUseHTTP(t, out, r.secrets)
 	vUseGRPC(t, out, r.secrets)
 	vUseTLS(t, out)
+	vTLSDecision(t, out)
 
 	// ---- decoding through confmap
 	for _, sec := range r.secrets {
